@@ -30,6 +30,10 @@ class Alphabet:
                 code = 0xdead0000 if n == 'U' else int(n[2:], 16)
                 assert code not in tc
                 self.codes.append((n, code, False, 'ord', False))
+            elif n.startswith('I:'):
+                code = int(n[2:], 16)          # a code of the table given by its id (two ids may carry one name)
+                assert code in tc and tc[code] not in TRACE_FAMILY
+                self.codes.append((n, code, False, 'ord', False))
             elif n.startswith('K:'):
                 code = E.n2i(n[2:])
                 self.codes.append((n, code, False, 'ord', False))
@@ -242,6 +246,8 @@ ALPHABETS = {
     'C7': (['BSC_getpid', 'TRACE_DATA_EXEC', 'K:TRACE_LOST_EVENTS', 'U:0x07000020'], (1, 2)),
     # decodable records whose decoders have side effects keyed by their ARGUMENT words (the argument words are 1,2,3,4: word 0
     # names thread 1, word 1 names thread 2): thread-terminate, new-thread, terminate-pid, sampler thread data
+    # two ids of the bundled table that carry ONE name (windows are kept per code, not per name)
+    'TWIN': (['BSC_getpid', 'I:0x1600400', 'I:0x160041c'], (1, 2)),
     'SIDE': (['BSC_getpid', 'TRACE_DATA_THREAD_TERMINATE', 'TRACE_DATA_NEWTHREAD', 'TRACE_DATA_THREAD_TERMINATE_PID', 'PERF_THD_Data'], (1, 2)),
 }
 _ALPHA = {}
@@ -268,7 +274,7 @@ class C04(Check):
             'abstracted) reached at the end of a history; transitions = real feed() calls.')
     assumptions = (
         'codes used: BSC_getpid/BSC_getuid (ordinary), TRACE_DATA_EXEC/TRACE_STRING_PROC_EXIT (trace domain), '
-        'MACH_vm_page_release (in table, no decoder), 0xdead0000 (unknown); fragment alphabet adds VFS_LOOKUP and '
+        'MACH_vm_page_release (in table, no decoder), 0xdead0000 (unknown); 0x1600400 / 0x160041c (two ids, one name); fragment alphabet adds VFS_LOOKUP and '
         'TRACE_STRING_GLOBAL',
         'leniency: a stray END may or may not be recorded in the windows open on its thread; a lone NONE fragment '
         'of a multi-record text may be swallowed (C08)',
@@ -277,8 +283,8 @@ class C04(Check):
 
     def plan(self):
         if self.tier == 'quick':
-            return [('A40', 4), ('FRAG', 3), ('T3', 3), ('C7', 4), ('A16+map', 4), ('T3+map', 3), ('SIDE', 3), ('A16+gen', 4), ('C7+gen', 3), ('T3+gen', 3), ('A16+ts', 4), ('FRAG+ts', 3), ('A16+same', 4), ('A16+same+gen', 4), ('FRAG+same', 3)]
-        return [('A40', 5), ('A16', 6), ('FRAG', 4), ('A48', 4), ('T3', 4), ('C7', 5), ('A40+map', 4), ('T3+map', 4), ('SIDE', 4), ('A40+gen', 4), ('C7+gen', 4), ('T3+gen', 4), ('A40+ts', 4), ('FRAG+ts', 4), ('A40+same', 4), ('A16+same+gen', 5), ('FRAG+same', 4)]
+            return [('A40', 4), ('FRAG', 3), ('T3', 3), ('C7', 4), ('A16+map', 4), ('T3+map', 3), ('SIDE', 3), ('A16+gen', 4), ('C7+gen', 3), ('T3+gen', 3), ('A16+ts', 4), ('FRAG+ts', 3), ('A16+same', 4), ('A16+same+gen', 4), ('FRAG+same', 3), ('TWIN', 4)]
+        return [('A40', 5), ('A16', 6), ('FRAG', 4), ('A48', 4), ('T3', 4), ('C7', 5), ('A40+map', 4), ('T3+map', 4), ('SIDE', 4), ('A40+gen', 4), ('C7+gen', 4), ('T3+gen', 4), ('A40+ts', 4), ('FRAG+ts', 4), ('A40+same', 4), ('A16+same+gen', 5), ('FRAG+same', 4), ('TWIN', 5)]
 
     def bounds(self):
         return {'spaces': [{'alphabet': a, 'symbols': len(alphabet(a).syms), 'depth': d,
